@@ -41,6 +41,7 @@ type c14Step struct {
 	// decoy: rewrite decoy file between calls
 	Decoy int         `json:"decoy,omitempty"`
 	Data  simrt.Bytes `json:"data,omitempty"`
+	Gone  bool        `json:"gone,omitempty"` // the decoy file is removed (it comes back with the next decoy write)
 
 	// move: relocate the mount or the executable directory
 	What string `json:"what,omitempty"` // mount | exe
@@ -77,6 +78,14 @@ type c14Key struct {
 	Prog  string
 	Mount string
 	Exe   string
+}
+
+// removableDecoy: a file nobody imports may vanish without consequence, unless its name is
+// that of a std library (then the resolution rule of the unchanged code does look at it).
+func removableDecoy(rel string) bool {
+	b := strings.ToLower(path.Base(rel))
+	b = strings.TrimSuffix(b, path.Ext(b))
+	return b != "strings" && b != "os"
 }
 
 func sha(b []byte) string {
@@ -184,6 +193,12 @@ func (h *c14Hist) materialise(env *Env) (*simrt.History, []*c14Key) {
 			keys = append(keys, nil)
 		case "decoy":
 			if len(h.Decoys) == 0 {
+				continue
+			}
+			if dn := h.Decoys[s.Decoy%len(h.Decoys)]; s.Gone && removableDecoy(dn) {
+				delete(content, dn)
+				out.Steps = append(out.Steps, simrt.Step{Kind: "remove", File: path.Join(mount, dn)})
+				keys = append(keys, nil)
 				continue
 			}
 			content[h.Decoys[s.Decoy%len(h.Decoys)]] = s.Data
@@ -370,7 +385,7 @@ func c14GenOdd(r *Run, rng *gen.Rng, corpus []string, oddPool []string) *c14Hist
 			h.Steps = append(h.Steps, c14Step{Kind: "edit", Rel: rel, Version: edited[rel], KeepMtime: rng.Chance(40)})
 		case k < 78:
 			if len(h.Decoys) > 0 {
-				h.Steps = append(h.Steps, c14Step{Kind: "decoy", Decoy: rng.Intn(len(h.Decoys)), Data: decoyData()})
+				h.Steps = append(h.Steps, c14Step{Kind: "decoy", Decoy: rng.Intn(len(h.Decoys)), Data: decoyData(), Gone: rng.Chance(35)})
 			}
 		case k < 86:
 			h.Steps = append(h.Steps, c14Step{Kind: "move", What: "mount", To: rng.Pick(mounts)})
